@@ -30,6 +30,8 @@ ASSUMPTIONS = [
     "not editable by construction: Output.name, index/parent/project back-references, a loaded pattern's tracks/lines, wholesale replacement of MetaModule.project",
     "instruments without the 'SAMP' signature (true legacy) are outside this property's domain",
 ]
+# classes of cases that are produced deterministically: their absence is a harness error (see vlib.harness)
+HARD_LABELS = ['attr_sweep', 'src_fixture']
 REQUIRED_LABELS = {
     "quick": ["edit_pf", "edit_mc", "edit_ctl", "edit_opt", "edit_cmid", "edit_pay", "edit_cell", "src_fixture", "src_project", "src_synth", "sampler_edit", "changed", "attr_sweep", "saved_before_edit", "embedded_edit", "duplicates", "edit_inside_one_of_identical_containers", "whole_object_replaced", "user_value_edit", "user_value_edit_via_alias"],
     "thorough": ["edit_pf", "edit_mc", "edit_ctl", "edit_opt", "edit_cmid", "edit_pay", "edit_cell", "edit_patf", "src_fixture", "src_project", "src_synth", "sampler_edit", "metamodule_edit", "embedded_edit", "changed", "fixture_sweep"],
